@@ -381,6 +381,24 @@ func (w *World) observe(st *Step, pre map[*half]halfSnap) {
 					pr.dir, pr.a.id, halfStateNames[s], hist()))
 			}
 		}
+		/* A transport error is one of the ways a direction ends: an input
+		stream whose Write or FlushError reported a failure to the broker
+		is not attached any more once things are quiet (C04-V). */
+		w.mu.Lock()
+		for _, a := range w.attempts {
+			h := a.halves["input"]
+			if nil == a.w || nil == h || hAttached != h.st {
+				continue
+			}
+			for _, o := range a.w.snapshot() {
+				if o.Err && "F" != o.Op { /* http.Flusher.Flush cannot report a failure. */
+					w.violLocked("C04", "input-survives-transport-error", fmt.Sprintf(
+						"the input transport of a%d reported an error (%s) to the broker, yet the input direction is still attached%s", a.id, o.Op, hist()))
+					break
+				}
+			}
+		}
+		w.mu.Unlock()
 		/* Closure notices: exactly when a unidirectional stream's proxy
 		ends, and never otherwise; /io halves may stay silent. */
 		w.mu.Lock()
